@@ -102,3 +102,40 @@ def config_word(acc):
 def id_word():
     major, minor, patch = ARCH_VER
     return ((patch & 0xF) << 16) | ((minor & 0xFF) << 20) | ((major & 0xF) << 28)
+
+
+def _round_up(a, b):
+    return -(-a // b) * b
+
+
+def shram_work_ranges(it, acc):
+    """Byte ranges of SHRAM a kernel operation uses as working memory according to its own registers: the two output banks,
+    the IFM buffer(s) and - for everything but elementwise - the accumulators [AB_START, AB_START + banks of one double-buffered
+    OFM block in the accumulator format).  -> list of (lo, hi) byte ranges."""
+    hw = ACCEL[acc]
+    out = [(0, 2 * BANK)]
+    bits = it.ifm.bits
+    if it.kind == "ELEMENTWISE":
+        gran = hw["gran"][GR_IFM32 if bits == 32 else (GR_IFM8_EW if bits == 8 else GR_IFM16_EW)]
+        ifm_bytes = it.bh * it.bw * _round_up(it.bc * bits // 8, 8)
+        ifm_banks = _round_up(-(-ifm_bytes // 1024) * 2, gran)
+        out.append((2 * BANK, (2 + ifm_banks) * BANK))
+        binary = it.ifm2 is not None and not (it.bcast & 0x80)
+        if binary:
+            out.append((it.ib_start2 * BANK, (it.ib_start2 + ifm_banks) * BANK))
+    else:
+        out.append((2 * BANK, max(2, it.ib_end) * BANK))
+        out.append((it.ab_start * BANK, (it.ab_start + acc_banks(it, acc)) * BANK))
+    return out
+
+
+def acc_banks(it, acc):
+    """banks of the double-buffered accumulators of one OFM block.  Conv1D rule of the 2-row micro-block configurations: an
+    operation with OFM height 1 and kernel height 1 accumulates one row although the block height register says 2."""
+    hw = ACCEL[acc]
+    name, acc_bits, gidx = ACC_FORMAT.get(it.acc_format, ("?", 32, GR_ACC32))
+    bh = it.bh
+    if it.oh == 1 and it.kh == 1 and hw["ofm_ub"][0] == 2:
+        bh = min(bh, 1)
+    acc_bytes = bh * it.bw * _round_up(it.bc, 8) * acc_bits // 8
+    return _round_up(-(-acc_bytes // 1024) * 2, hw["gran"][gidx])
